@@ -278,10 +278,11 @@ def build_harness(variant="default"):
 # running cases
 # ---------------------------------------------------------------------------------------------
 
-def _run_sharded(argv, lines, timeout, shards=None, on_timeout=None):
-    if not lines:
-        return []
+def _run_once(argv, lines, timeout, shards):
+    """one pass: -> list of observation | ("crash", text) for the line a process died on |
+    ("slow",) for the line a process was working on when the time ran out | ("notrun",)"""
     n = shards or min(NPROC, max(1, len(lines) // 200))
+    n = max(1, min(n, len(lines)))
     chunks = [lines[i::n] for i in range(n)]
     procs = []
     for ch in chunks:
@@ -315,11 +316,44 @@ def _run_sharded(argv, lines, timeout, shards=None, on_timeout=None):
         for j, idx in enumerate(idxs):
             if j < len(ol):
                 res[idx] = ol[j]
-            elif timed_out[i] and on_timeout:
-                res[idx] = on_timeout          # the shard ran out of wall-clock time: not evaluated
+            elif j == len(ol):
+                res[idx] = ("slow",) if timed_out[i] else ("crash", "crash rc=%s %s" % (rc, (err or "").strip().splitlines()[-1:] or ""))
             else:
-                res[idx] = "crash rc=%s %s" % (rc, (err or "").strip().splitlines()[-1:] or "")
+                res[idx] = ("notrun",)
     return res
+
+
+def _run_sharded(argv, lines, timeout, shards=None, on_timeout=None):
+    """Run the case lines through `argv` processes. A process that dies takes only the line it was working
+    on with it (reported as `crash ...`); the lines behind it are run again in a fresh process. A process
+    that runs out of wall-clock time (a loaded machine, a huge tier) has its unfinished lines run again;
+    the line it was working on is given a process of its own, and only if that does not answer either is
+    it reported (`on_timeout` if given - the model's "not evaluated" - else `crash timeout`)."""
+    if not lines:
+        return []
+    res = _run_once(argv, lines, timeout, shards)
+    for _ in range(4):
+        pend = [i for i, r in enumerate(res) if r == ("notrun",)]
+        if not pend:
+            break
+        sub = _run_once(argv, [lines[i] for i in pend], timeout, shards)
+        for i, r in zip(pend, sub):
+            res[i] = r
+    slow = [i for i, r in enumerate(res) if r == ("slow",)]
+    if slow:
+        sub = _run_once(argv, [lines[i] for i in slow], min(timeout, 600), len(slow) if len(slow) <= NPROC else NPROC)
+        for i, r in zip(slow, sub):
+            res[i] = r
+    out = []
+    for r in res:
+        if isinstance(r, tuple):
+            if r[0] == "crash":
+                out.append(r[1])
+            else:
+                out.append(on_timeout or "crash timeout (no answer)")
+        else:
+            out.append(r)
+    return out
 
 
 def run_model(fam, lines, timeout=1500):
